@@ -57,6 +57,15 @@ func TestVerifStress(t *testing.T) {
 			Metrics:            metricsOn,
 			IgnoreInternalCost: rng.Intn(2) == 0,
 		}
+		if r%2 == 1 {
+			// lag rounds (see the slow consumer below): enough goroutines and small Get batches to fill the policy's
+			// batch channel, and no Clear, so that the Get counters are comparable with the number of Gets
+			if gor < 16 {
+				gor = 16
+			}
+			cfg.BufferItems = []int64{1, 8}[rng.Intn(2)]
+			cfg.Metrics = true
+		}
 		if withCb {
 			cfg.OnExit = func(v uint64) {
 				if v != 0 {
@@ -107,6 +116,24 @@ func TestVerifStress(t *testing.T) {
 				}
 			}
 		}()
+		// a slow consumer of the Get-side batches: every other round something keeps the policy mutex busy, so that the
+		// policy goroutine lags, its batch channel fills and full stripes are refused
+		stopLag := make(chan struct{})
+		if r%2 == 1 {
+			go func() {
+				for {
+					select {
+					case <-stopLag:
+						return
+					default:
+					}
+					c.cachePolicy.Lock()
+					time.Sleep(500 * time.Microsecond)
+					c.cachePolicy.Unlock()
+					time.Sleep(200 * time.Microsecond)
+				}
+			}()
+		}
 		for g := 0; g < gor; g++ {
 			wg.Add(1)
 			go func(g int, s int64) {
@@ -169,7 +196,11 @@ func TestVerifStress(t *testing.T) {
 						c.Wait()
 					case call < 90:
 						name = "Clear"
-						c.Clear()
+						if r%2 == 1 {
+							c.Wait() // the lag rounds keep their metric counters (Clear zeroes them): see the gets-count oracle
+						} else {
+							c.Clear()
+						}
 					case call < 93:
 						name = "UpdateMaxCost"
 						c.UpdateMaxCost(int64(1 + lr.Intn(2000)))
@@ -201,6 +232,7 @@ func TestVerifStress(t *testing.T) {
 			fmt.Printf("stress hang: round %d (goroutines=%d setBuf=%d): round did not finish in 120s\n", r, gor, setBufSize)
 			t.Fatal("round timeout")
 		}
+		close(stopLag)
 		if r == rounds-1 {
 			sweepPhase.Store(true)
 			c.UpdateMaxCost(1 << 40) // no capacity eviction in this phase: every OnEvict comes from the expiry sweep
